@@ -26,7 +26,9 @@ META = {
             "command manager and pushed through the real backend play session handler; the packet the player "
             "connection wrote is decoded by the harness's own Commands decoder and TLC compares it with Merge.",
     "design_ref": "DESIGN.md section 4, C23",
-    "level_note": "Equality with Merge also demands that usable proxy nodes are shown and redirects to usable targets "
+    "level_note": "Every case is fed twice through the same backend session handler with the player's permissions "
+                  "changed in between (revoked / granted); each answer is judged against Merge with the permissions "
+                  "held at that moment. Equality with Merge also demands that usable proxy nodes are shown and redirects to usable targets "
                   "kept ('merges its commands'); a redirect whose target the player may not use must lead nowhere. "
                   "Redirects go to other top-level proxy commands (alias style), to the dispatcher root or to "
                   "the parent command (cyclic; the received graph is followed up to the cycle). Origin of a top-level node is told by the executable flag "
@@ -44,7 +46,7 @@ def run(ctx):
     if not r2.violated:
         raise vlib.ToolError("shallow filter variant violates nothing: invariants vacuous")
     ctx.log("CommandTree.tla (shallow filter): violates %s (non-vacuity ok)" % r2.violated)
-    r3 = ctx.tlc("CommandTree", "CommandTree_random.cfg", workers=1, simulate=ctx.pick(400, 6000), depth=4,
+    r3 = ctx.tlc("CommandTree", "CommandTree_random.cfg", workers=1, simulate=ctx.pick(250, 6000), depth=4,
                  count=False, timeout=1500)
     cases = r3.printed_json("CASE")
     for c in cases:
